@@ -186,7 +186,12 @@ func (g *genState) schemaC04(idx int) schemaSpec {
 	}
 	g.dim = dim
 	g.vecMetric = m
-	return schemaSpec{{path: "fv", kind: ixFlat, dim: dim, metric: m, q: q}, {path: "i", kind: ixInt}, {path: "tags", kind: ixStrArr, caseSens: true}}
+	path := "fv"
+	if (idx/6)%3 == 2 {
+		// the vector lives inside a nested object: an update reaches it through the parent key
+		path = "nested.v"
+	}
+	return schemaSpec{{path: path, kind: ixFlat, dim: dim, metric: m, q: q}, {path: "i", kind: ixInt}, {path: "tags", kind: ixStrArr, caseSens: true}}
 }
 
 func (g *genState) schemaC03(idx int) schemaSpec {
@@ -390,7 +395,7 @@ func (g *genState) genVec(dim int) []float32 {
 			v[i] = float32(g.r.IntN(17) - 8)
 		}
 		if g.r.IntN(6) == 0 { // duplicates of stored vectors: ties
-			if st := append(g.storedAt("fv"), g.storedAt("vec")...); len(st) > 0 {
+			if st := append(append(g.storedAt("fv"), g.storedAt("vec")...), g.storedAt("nested.v")...); len(st) > 0 {
 				c := st[g.r.IntN(len(st))]
 				if c.K == kArr && len(c.A) == dim {
 					for i := range v {
@@ -779,9 +784,11 @@ func (g *genState) genBatch(step int) batchSpec {
 					keep = append(keep, p)
 				}
 			}
+			set := Val{K: kMap}
+			setPath(&set, ix.path, vVec(g.genVec(ix.dim)))
 			b.points = append(keep,
 				pointSpec{id: id, doc: Val{K: kMap, M: []KV{{top, vStr("_delete")}}}},
-				pointSpec{id: id, doc: Val{K: kMap, M: []KV{{top, vVec(g.genVec(ix.dim))}}}})
+				pointSpec{id: id, doc: set})
 		}
 		// graph profiles: one request that removes and re-adds (or sets and then removes) the vector field of
 		// the same point. The second shape is the known finding F14 (DESIGN 9.3): the step is tagged.
